@@ -28,7 +28,7 @@ use crate::member::Member;
 use crate::message::{SpaceMembershipMessage, SpacesArgs, SpacesMessage};
 use crate::space::{Space, SpaceError, SpacesState};
 use crate::store::SpacesStoreState;
-use crate::types::{AuthGroupState, AuthResolver};
+use crate::types::{AuthGroupAction, AuthGroupState, AuthResolver};
 use crate::{ActorId, Config, Credentials, GroupId, SpaceId};
 
 /// Identifier used to store groups state into database.
@@ -246,7 +246,16 @@ where
 
                 (None, None, vec![event])
             }
-            SpacesArgs::Auth { .. } => {
+            SpacesArgs::Auth { group_action, .. } => {
+                // Promote and demote actions are not supported yet, we reject them instead of
+                // crashing on message content a remote peer can choose.
+                if matches!(
+                    group_action,
+                    AuthGroupAction::Promote { .. } | AuthGroupAction::Demote { .. }
+                ) {
+                    return Err(ManagerError::UnexpectedMessage(message.hash()));
+                }
+
                 let event = Group::process(self.clone(), &SpacesMessage::auth(message))
                     .await
                     .map_err(ManagerError::Group)?;
@@ -512,6 +521,14 @@ where
                 }
             }
         };
+
+        // Promote and demote actions are not supported yet, see above.
+        if matches!(
+            auth_message.action(),
+            AuthGroupAction::Promote { .. } | AuthGroupAction::Demote { .. }
+        ) {
+            return Err(ManagerError::UnexpectedMessage(message.id));
+        }
 
         let space = match self.space(space_id).await? {
             Some(space) => space,
